@@ -15,7 +15,10 @@ use crate::response::{Response, StatusCode};
 use crate::server::MAX_PAYLOAD_SIZE;
 use vmm_sys_util::sock_ctrl_msg::ScmSocket;
 
+#[cfg(not(micro_http_verif_small))]
 const BUFFER_SIZE: usize = 1024;
+#[cfg(micro_http_verif_small)]
+const BUFFER_SIZE: usize = 32;
 const SCM_MAX_FD: usize = 253;
 
 /// Describes the state machine of an HTTP connection.
@@ -482,6 +485,14 @@ impl<T: Read + Write + ScmSocket> HttpConnection<T> {
                 Err(e) if e.kind() == std::io::ErrorKind::Interrupted => {}
                 Err(_) => connection_closed = true,
             }
+            #[cfg(micro_http_verif)]
+            crate::verif::emit(format!(
+                "{{\"h\":\"write\",\"len\":{},\"left\":{},\"closed\":{},\"full\":{}}}",
+                bytes_to_be_written,
+                response_buffer_vec.len(),
+                connection_closed,
+                response_fully_written
+            ));
         }
 
         if connection_closed {
@@ -547,6 +558,27 @@ impl<T: Read + Write + ScmSocket> HttpConnection<T> {
     /// Returns `true` if there are bytes waiting to be written into the stream.
     pub fn pending_write(&self) -> bool {
         self.response_buffer.is_some() || !self.response_queue.is_empty()
+    }
+
+    /// Read-only digest of the parser state (verification builds only; diagnostic).
+    #[cfg(micro_http_verif)]
+    pub fn verif_digest(&self) -> crate::verif::ConnDigest {
+        crate::verif::ConnDigest {
+            phase: match self.state {
+                ConnectionState::WaitingForRequestLine => 0,
+                ConnectionState::WaitingForHeaders => 1,
+                ConnectionState::WaitingForBody => 2,
+                ConnectionState::RequestReady => 3,
+            },
+            read_cursor: self.read_cursor,
+            body_missing: self.body_bytes_to_be_read,
+            body_held: self.body_vec.len(),
+            parsed: self.parsed_requests.len(),
+            queued: self.response_queue.len(),
+            unsent: self.response_buffer.as_ref().map_or(0, |b| b.len()),
+            files: self.files.len(),
+            pending: self.pending_request.is_some(),
+        }
     }
 }
 
